@@ -116,6 +116,14 @@ def register(reg, repo):
         ghost={"n_hist": "n_hist + 1", "hist_type": "update_type", "hist_details": "details",
                "hist_heap": "__heap__", "hist_arn": "execution_arn"},
         ghost_modifies=[],
+        # in normal operation (the record exists) only the history list is written: proved on the real body under C09
+        ensures=[("record-store-kept", "implies(old(execution_arn in self.executions and not isnone(self.executions[execution_arn])), "
+                                       "unchanged(self.executions))"),
+                 ("express-untouched", "implies(old(state_machine.get('type')) == 'EXPRESS', unchanged(self.executions) and "
+                                       "unchanged(self.execution_history))"),
+                 ("history-store-kept", "implies(old(execution_arn in self.executions and not isnone(self.executions[execution_arn]) "
+                                        "and execution_arn in self.execution_history), unchanged(self.execution_history) and "
+                                        "islist(self.execution_history[execution_arn]))")],
         raises={})
 
     # ---- change_state (DESIGN A.2): C03 (publish iff no error), C07 (counter reset), C16 (limit boundary), C09
